@@ -66,15 +66,15 @@ var props = []prop{
 	{ID: "C05", Level: "exploration", Shards: 16},
 	{ID: "C06", Level: "model_checking", Shards: 16},
 	{ID: "C07", Level: "model_checking", Overlay: true, Shards: 16, QuickBudget: 45, ThoroughBudget: 900, RacePkg: "c07race"},
-	{ID: "C08", Level: "model_checking", Overlay: true, Shards: 16, QuickBudget: 45, ThoroughBudget: 900, RacePkg: "subrace", RaceBodies: "C08-"},
+	{ID: "C08", Level: "model_checking", Overlay: true, Shards: 16, QuickBudget: 90, ThoroughBudget: 900, RacePkg: "subrace", RaceBodies: "C08-"},
 	{ID: "C09", Level: "model_checking", Overlay: true, Shards: 16},
 	{ID: "C10", Level: "exploration", Shards: 16},
 	{ID: "C11", Level: "exploration", Shards: 16},
 	{ID: "C12", Level: "exploration", Shards: 16},
 	{ID: "C13", Level: "exploration", Shards: 16},
-	{ID: "C14", Level: "model_checking", Overlay: true, Shards: 16, QuickBudget: 45, ThoroughBudget: 900, RacePkg: "subrace", RaceBodies: "C14-,C15-sync"},
-	{ID: "C15", Level: "model_checking", Overlay: true, Shards: 16, QuickBudget: 45, ThoroughBudget: 900, RacePkg: "subrace", RaceBodies: "C15-"},
-	{ID: "C16", Level: "model_checking", Overlay: true, Shards: 16, QuickBudget: 45, ThoroughBudget: 900, RacePkg: "subrace", RaceBodies: "C16-"},
+	{ID: "C14", Level: "model_checking", Overlay: true, Shards: 16, QuickBudget: 90, ThoroughBudget: 900, RacePkg: "subrace", RaceBodies: "C14-,C15-sync"},
+	{ID: "C15", Level: "model_checking", Overlay: true, Shards: 16, QuickBudget: 90, ThoroughBudget: 900, RacePkg: "subrace", RaceBodies: "C15-"},
+	{ID: "C16", Level: "model_checking", Overlay: true, Shards: 16, QuickBudget: 75, ThoroughBudget: 900, RacePkg: "subrace", RaceBodies: "C16-"},
 	{ID: "C17", Level: "exploration", Shards: 16},
 	{ID: "C18", Level: "exploration", Shards: 16},
 	{ID: "C19", Level: "exploration", Shards: 16},
